@@ -2,6 +2,7 @@ SPECIFICATION Spec
 CONSTANTS
   N = 3
   R = 2
+  Part = "trie"
   BugGapsIgnoreTarget = FALSE
 INVARIANTS GapsPartitionTarget CoalesceKeepsCoverage SubtractIsDifference CoveredIffNoGaps RegionPlanExists AllocBounds
 CHECK_DEADLOCK FALSE
